@@ -167,11 +167,13 @@ for edition, sec1_bits in ((2, 144), (3, 144), (4, 176)):
         for short in (0, 1, 4, 6):
             expect_error(lambda: decoder.process(set_len(b, start, short)), PyBufrKitError,
                          'Read exceeds declared section 3 length: {} by {} bits'.format(short, 56 - short * 8))
-        # section 2: fewer octets declared than its fixed head gives a negative read width
+        # section 2: fewer octets declared than its fixed head is refused like any other overrun
+        # (rebased: since "fix: a section declared shorter than its fixed part is reported with
+        # PyBufrKitError" the negative width no longer reaches the bit reader as a ValueError)
         start, n = lay[2]
         for short in (0, 1, 2, 3):
-            expect_error(lambda: decoder.process(set_len(b, start, short)), ValueError,
-                         "Can't parse 'name[:]length' token 'bin:{}'.".format(short * 8 - 32))
+            expect_error(lambda: decoder.process(set_len(b, start, short)), PyBufrKitError,
+                         'Read exceeds declared section 2 length: {} by {} bits'.format(short, 32 - short * 8))
         # declared exactly its head: empty local bits, the next section is then misread
         expect_error(lambda: decoder.process(set_len(b, start, 4)), BitReadError)
 
